@@ -57,16 +57,30 @@ def rule_once(ctx, res):
         return
     st = stores[0]
     key = [t for t in st.targets if isinstance(t, ast.Subscript)][0].slice
-    guard = None
-    for n in cfg.nodes:
-        if n.kind == 'test' and isinstance(n.ast, ast.Compare) and \
-                len(n.ast.ops) == 1 and isinstance(n.ast.ops[0], ast.NotIn) \
-                and ast.dump(n.ast.left) == ast.dump(key) and \
-                isinstance(n.ast.comparators[0], ast.Name) and \
-                n.ast.comparators[0].id == table:
-            guard = n
-    ok = guard is not None and all(cfg.edge_dominates(guard, 'true', s)
-                                   for s in cfg.nodes_of(st))
+    from ..absint.symbody import SymBody
+    sym = SymBody(ctx, f, max_paths=2000)
+    loops = [n for n in f.node.body if isinstance(n, ast.For)]
+    lpaths = sym.run(loops[0].body, {}) if len(loops) == 1 else []
+    KEY = ast.unparse(key)
+    guarded = bool(lpaths)
+    n_store_paths = 0
+    for p in lpaths:
+        if not any(e[0] == 'store' and ast.unparse(e[1]) == table
+                   for e in p.events):
+            continue
+        n_store_paths += 1
+        absent = False
+        for (t, val) in p.conds:
+            while isinstance(t, ast.UnaryOp) and isinstance(t.op, ast.Not):
+                t, val = t.operand, not val
+            tt = ast.unparse(t)
+            if tt == '{} in {}'.format(KEY, table) and not val:
+                absent = True
+            if tt == '{} not in {}'.format(KEY, table) and val:
+                absent = True
+        if not absent:
+            guarded = False
+    ok = guarded and n_store_paths > 0
     res.check(ok, 'R-C14-once', q, 'store guarded by `key not in table`',
               'a package is resolved and embedded once',
               'the store is not guarded by a membership test on the same '
@@ -355,41 +369,91 @@ def rule_strip(ctx, res):
               '{}'.format(sorted(names) if names is not UNKNOWN else names),
               'stripped names are not exactly _init/_update/_update60/_draw: '
               '{}'.format(names))
-    comps = [n for n in walk_own(f.node)
-             if isinstance(n, (ast.ListComp, ast.GeneratorExp)) and
-             any('.root.stats' in ast.unparse(g.iter) for g in n.generators)]
-    if not comps:
-        res.vanished('R-C14-strip', q, 'strip filter',
-                     'no filter over <lua>.root.stats found')
+    from .. import norm
+    from ..absint.symbody import SymBody
+    u = ast.unparse
+    # the selection of the statements to strip: a comprehension or filter()
+    # over <lua>.root.stats, in _evaluate_require or a helper extracted from it
+    sel = []            # (function, node, condition expr over one statement)
+    for (g, n) in norm.region_nodes(ctx, f):
+        if isinstance(n, (ast.ListComp, ast.GeneratorExp)) and any(
+                '.root.stats' in u(norm.subst_locals(g.node, gen.iter))
+                for gen in n.generators):
+            gen = n.generators[0]
+            cond = gen.ifs[0] if len(gen.ifs) == 1 else (
+                ast.BoolOp(op=ast.And(), values=list(gen.ifs))
+                if gen.ifs else None)
+            sel.append((g, n, len(n.generators) == 1, gen.target, cond))
+        elif isinstance(n, ast.Call) and isinstance(n.func, ast.Name) and \
+                n.func.id == 'filter' and len(n.args) == 2 and \
+                '.root.stats' in u(norm.subst_locals(g.node, n.args[1])):
+            pred = n.args[0]
+            tgt = ast.Name(id='_s', ctx=ast.Load())
+            cond = None
+            if isinstance(pred, ast.Lambda):
+                tgt = ast.Name(id=pred.args.args[0].arg, ctx=ast.Load())
+                cond = pred.body
+            else:
+                # a named predicate: its body as an expression of its param
+                call = ast.Call(func=pred, args=[tgt], keywords=[])
+                ast.copy_location(call, n)
+                ast.fix_missing_locations(call)
+                cond = SymBody(ctx, g).S(call, {})
+                if isinstance(cond, ast.Call) and u(cond.func) == u(pred):
+                    cond = None
+            sel.append((g, n, True, tgt, cond))
+    if not sel:
+        res.undecided('R-C14-strip', q, 'strip filter',
+                      'no selection over <lua>.root.stats found in '
+                      '_evaluate_require or its helpers', f.loc)
         return
-    for c in comps:
-        src = ast.unparse(c)
-        top = len(c.generators) == 1
+    for (g, c, top, tgt, cond) in sel:
+        if cond is None:
+            res.undecided('R-C14-strip', g.qual, 'strip filter',
+                          'selection condition not recognised',
+                          g.module.loc(c))
+            continue
+        sg = SymBody(ctx, g)
+        cond = sg.S(cond, {})
+        src = u(cond)
         typ = 'StatFunction' in src and 'isinstance' in src
-        byname = 'GAME_LOOP_FUNCTION_NAMES' in src and 'namepath[0]' in src
-        guard = None
-        p = getattr(c, '_parent', None)
-        while p is not None and p is not f.node:
-            if isinstance(p, ast.If):
-                guard = p
-                break
-            p = getattr(p, '_parent', None)
-        g_ok = guard is not None and isinstance(guard.test, ast.UnaryOp) and \
-            isinstance(guard.test.op, ast.Not) and \
-            isinstance(guard.test.operand, ast.Name) and \
-            guard.test.operand.id == 'use_game_loop'
-        # selection polarity: (isinstance and name in) selects the stripped,
-        # (not isinstance or name not in) selects the kept
-        cond = c.generators[0].ifs[0] if c.generators[0].ifs else None
+        byname = 'namepath[0]' in src and (
+            'GAME_LOOP_FUNCTION_NAMES' in src or all(
+                repr(nm) in src for nm in pico8_api.CALLBACKS))
+        # guarded by `not use_game_loop`: on every path of the function that
+        # contains the selection it is reached only when the option is false
+        g_ok = False
+        for (fn, n2) in norm.region_nodes(ctx, f):
+            if isinstance(n2, ast.If):
+                t = n2.test
+                neg = False
+                while isinstance(t, ast.UnaryOp) and isinstance(t.op, ast.Not):
+                    t, neg = t.operand, not neg
+                if isinstance(t, ast.Name) and t.id == 'use_game_loop':
+                    branch = n2.body if neg else n2.orelse
+                    other = n2.orelse if neg else n2.body
+                    inside = any(x is c for st in branch
+                                 for x in walk_own(st)) or any(
+                        t2.qual == g.qual or g in norm.new_helpers(ctx, t2)
+                        for (_c2, t2) in norm.callees(ctx.model, fn,
+                                                      list(branch)))
+                    early = (not neg) and any(
+                        isinstance(x, (ast.Return, ast.Continue))
+                        for st in n2.body for x in walk_own(st))
+                    if inside or early:
+                        g_ok = True
+        # polarity: the condition is TRUE for a callback definition
         pol = None
-        if isinstance(cond, ast.BoolOp) and isinstance(cond.op, ast.And):
+        parts = cond.values if isinstance(cond, ast.BoolOp) else [cond]
+        if isinstance(cond, ast.BoolOp) and isinstance(cond.op, ast.And) or \
+                not isinstance(cond, ast.BoolOp):
             pol = all(not (isinstance(v, ast.UnaryOp) or (
                 isinstance(v, ast.Compare) and
-                isinstance(v.ops[0], ast.NotIn))) for v in cond.values)
-        elif isinstance(cond, ast.BoolOp) and isinstance(cond.op, ast.Or):
+                isinstance(v.ops[0], ast.NotIn))) for v in parts)
+        elif isinstance(cond.op, ast.Or):
             pol = all(isinstance(v, ast.UnaryOp) or (
                 isinstance(v, ast.Compare) and
-                isinstance(v.ops[0], ast.NotIn)) for v in cond.values)
+                isinstance(v.ops[0], ast.NotIn)) for v in parts)
         res.check(top and typ and byname and g_ok and pol is True,
                   'R-C14-strip', q, 'strip filter selects only top-level '
                   'callback definitions, unless use_game_loop',
@@ -398,9 +462,9 @@ def rule_strip(ctx, res):
                   'filter changed: top-level-only={} statfunction={} '
                   'by-callback-name={} guarded-by-option={} '
                   'consistent-polarity={}'.format(top, typ, byname, g_ok, pol),
-                  f.module.loc(c))
+                  g.module.loc(c))
     # token-range form of the strip: half-open [start_pos, end_pos)
-    for c in walk_own(f.node):
+    for (g, c) in norm.region_nodes(ctx, f):
         if isinstance(c, ast.Compare) and len(c.ops) == 2 and \
                 'start_pos' in ast.unparse(c) and 'end_pos' in ast.unparse(c):
             ok = isinstance(c.ops[0], ast.LtE) and isinstance(c.ops[1], ast.Lt) \
@@ -415,7 +479,15 @@ def rule_strip(ctx, res):
                       'left out',
                       'token range test is not start_pos <= i < end_pos '
                       '(negated): a neighbouring token is dropped or a '
-                      'stripped one kept', f.module.loc(c))
+                      'stripped one kept', g.module.loc(c))
+        elif isinstance(c, ast.Call) and isinstance(c.func, ast.Name) and \
+                c.func.id == 'range' and len(c.args) == 2 and \
+                'start_pos' in ast.unparse(c.args[0]) and \
+                'end_pos' in ast.unparse(c.args[1]):
+            # positions collected as range(start_pos, end_pos): half-open too
+            res.holds('R-C14-strip', q,
+                      'dropped token range is [start_pos, end_pos)',
+                      'range(start_pos, end_pos)', g.module.loc(c))
     # the option comes from the require() call's option table
     w = model.func(B + ':RequireWalker._walk_FunctionCall')
     src = ast.unparse(w.node)
@@ -431,68 +503,137 @@ def _stmt(n):
 
 
 def rule_errors(ctx, res):
+    from .. import norm
+    from ..absint.symbody import SymBody
+    from .c12 import param_reaches_sink
     model = ctx.model
+    u = ast.unparse
     e = model.func(B + ':RequireWalker._error_at_node')
     cfg = cfg_of(e)
     res.check(cfg.exit not in cfg.reachable(), 'R-C14-errors', e.qual,
               'error helper always raises', '',
               '_error_at_node can return normally: invalid require() '
               'arguments are accepted', e.loc)
+    # ---- a package that is not found fails before anything is opened ------
     q = B + ':_evaluate_require'
     f = model.func(q)
-    cfg = cfg_of(f)
-    opens = [n for n in model.own_nodes(f.node) if isinstance(n, ast.Call)
-             and model.ext_name(f.module, n.func) == 'open']
-    guard_ok = False
-    for n in cfg.nodes:
-        if n.kind == 'test' and isinstance(n.ast, ast.Compare) and \
-                isinstance(n.ast.ops[0], ast.Is) and \
-                isinstance(n.ast.comparators[0], ast.Constant) and \
-                n.ast.comparators[0].value is None:
-            tr = cfg.succ_by_label(n, 'true')
-            reach = cfg.reachable_from(tr, avoid={n})
-            if cfg.raise_exit in reach and cfg.exit not in reach and opens \
-                    and all(cfg.dominates(n, on) for o in opens
-                            for on in cfg.nodes_of(o)) and \
-                    isinstance(n.ast.left, ast.Name) and any(
-                        isinstance(a, ast.Name) and a.id == n.ast.left.id
-                        for o in opens for a in o.args):
-                guard_ok = True
-    res.check(guard_ok, 'R-C14-errors', q, 'missing package raises',
-              'a require() whose file is not found fails the build before '
-              'anything is opened',
-              'no raising `is None` test on the located path dominates the '
-              'open', f.loc)
+    loops = [n for n in f.node.body if isinstance(n, ast.For)]
+    guard_ok = None
+    if len(loops) == 1:
+        sym = SymBody(ctx, f, max_paths=2000)
+        opened = 0
+        guard_ok = True
+        for p in sym.run(loops[0].body, {}):
+            # events that open a file: open(X) or a helper whose parameter
+            # reaches an open
+            for k, ev in enumerate(p.events):
+                exprs = [x for x in ev[1:-1] if isinstance(x, ast.AST)]
+                for ex in exprs:
+                    for c in ast.walk(ex):
+                        if not isinstance(c, ast.Call):
+                            continue
+                        arg = None
+                        if isinstance(c.func, ast.Name) and \
+                                c.func.id == 'open' and c.args:
+                            arg = c.args[0]
+                        else:
+                            kind, targets = model.resolve_call(f, c) \
+                                if hasattr(c, 'lineno') else (None, [])
+                            for t in targets or []:
+                                if hasattr(t, 'qual') and \
+                                        t.qual != B + ':_locate_require_file':
+                                    reach = param_reaches_sink(model, t)
+                                    params = t.params()
+                                    for i, a in enumerate(c.args):
+                                        if i < len(params) and \
+                                                params[i] in reach:
+                                            arg = a
+                        if arg is None or '_locate_require_file' not in \
+                                u(arg):
+                            continue
+                        opened += 1
+                        # the located path was tested against None before
+                        ok = any(
+                            p.conds.at[i] <= k and (
+                                (u(t) == u(arg) + ' is None' and not v) or
+                                (u(t) == u(arg) + ' is not None' and v))
+                            for i, (t, v) in enumerate(p.conds))
+                        if not ok:
+                            guard_ok = False
+        if opened == 0:
+            guard_ok = None
+        # and the None case raises
+        if guard_ok:
+            raised = any(
+                p.end == 'raise' and any(
+                    u(t).endswith(' is None') and v and
+                    '_locate_require_file' in u(t) or
+                    u(t).endswith(' is not None') and not v and
+                    '_locate_require_file' in u(t) for (t, v) in p.conds)
+                for p in sym.run(loops[0].body, {}))
+            guard_ok = raised
+    if guard_ok is None:
+        res.undecided('R-C14-errors', q, 'missing package raises',
+                      'the open of the located file was not found', f.loc)
+    else:
+        res.check(guard_ok, 'R-C14-errors', q, 'missing package raises',
+                  'a require() whose file is not found fails the build '
+                  'before anything is opened',
+                  'no raising `is None` test on the located path precedes '
+                  'the open', f.loc)
+    # ---- require() arguments are validated before the result is yielded ----
     w = model.func(B + ':RequireWalker._walk_FunctionCall')
-    cfg = cfg_of(w)
-    ynodes = [n for n in cfg.nodes if n.ast is not None and n.kind == 'stmt'
-              and any(isinstance(x, ast.Yield) and
-                      isinstance(x.value, ast.Tuple)
-                      for x in walk_own(n.ast))]
-    err_calls = [n for n in cfg.nodes if n.ast is not None and any(
-        isinstance(x, ast.Call) and isinstance(x.func, ast.Attribute) and
-        x.func.attr == '_error_at_node' for x in walk_own(
-            n.ast if n.kind == 'stmt' else ast.Pass()))]
-    kinds = {'argcount': False, 'string-literal': False, 'options': False}
-    for ec in err_calls:
-        # the test guarding this call
-        p = getattr(ec.stmt, '_parent', None)
-        if isinstance(p, ast.If):
-            t = ast.unparse(p.test)
-            tn = [n for n in cfg.nodes if n.ast is p.test]
-            dom = tn and ynodes and all(cfg.dominates(tn[0], y)
-                                        for y in ynodes)
-            if 'len(' in t and '< 1' in t and dom:
-                kinds['argcount'] = True
-            if 'TokString' in t and dom:
-                kinds['string-literal'] = True
-            if 'use_game_loop' in t:
-                kinds['options'] = True
-    for k, v in kinds.items():
-        res.check(v, 'R-C14-errors', w.qual,
+    sym = SymBody(ctx, w, max_paths=3000)
+    paths = sym.run(w.node.body)
+    result_paths = []
+    for p in paths:
+        ys = [k for k, ev in enumerate(p.events) if ev[0] == 'yield' and
+              isinstance(ev[1], ast.Tuple)]
+        if ys:
+            result_paths.append((p, ys[0]))
+    err_tests = {}           # kind -> set of (test text, raising polarity)
+    for p in paths:
+        if p.end != 'raise' or not p.conds:
+            continue
+        last = [ev for ev in p.events if ev[0] == 'call' and
+                '_error_at_node' in u(ev[1])]
+        if not last:
+            continue
+        t, v = p.conds[-1]
+        tt = u(t)
+        kind = 'argcount' if 'len(' in tt and 'fields' not in tt else (
+            'string-literal' if 'TokString' in tt else (
+                'options' if ('use_game_loop' in tt or 'fields' in tt or
+                              'TableConstructor' in tt or 'key_name' in tt or
+                              'ExpValue' in tt) else None))
+        if kind:
+            err_tests.setdefault(kind, set()).add((tt, v))
+    for kind in ('argcount', 'string-literal', 'options'):
+        tests = err_tests.get(kind, set())
+        ok = bool(tests) and bool(result_paths)
+        for (p, yk) in result_paths:
+            # every validation test of this kind the path evaluates was
+            # evaluated BEFORE the yield and passed
+            seen = False
+            for i, (t, v) in enumerate(p.conds):
+                for (tt, rv) in tests:
+                    if u(t) == tt:
+                        seen = True
+                        if v == rv or p.conds.at[i] > yk:
+                            ok = False
+            if kind in ('argcount', 'string-literal') and not seen:
+                ok = False
+        if not tests:
+            res.undecided('R-C14-errors', w.qual,
+                          'require() {} validated before the result is '
+                          'yielded'.format(kind),
+                          'no raising test of this kind found', w.loc)
+            continue
+        res.check(ok, 'R-C14-errors', w.qual,
                   'require() {} validated before the result is '
-                  'yielded'.format(k), '',
-                  'the {} check no longer guards the yield'.format(k), w.loc)
+                  'yielded'.format(kind), '{} test(s)'.format(len(tests)),
+                  'the {} check no longer guards the yield'.format(kind),
+                  w.loc)
     # the main program goes through the default echo writer
     g = model.func(B + ':_prepend_package_lua')
     tl = [c for c in walk_own(g.node) if isinstance(c, ast.Call) and
@@ -505,11 +646,24 @@ def rule_errors(ctx, res):
               'a transforming writer is applied while embedding', g.loc)
     # main program last, after the loader
     last_ok = False
+    orig = g.params()[0] if g.params() else 'orig_ast'
+    main = orig + '.to_lines()'
     for n in walk_own(g.node):
         if isinstance(n, ast.BinOp) and isinstance(n.op, ast.Add) and \
-                'orig_ast.to_lines()' in ast.unparse(n.right) and \
-                isinstance(n.left, ast.Name):
+                main in u(n.right) and isinstance(n.left, ast.Name):
             last_ok = True
+    if not last_ok:
+        # list built in place: the last mutation of the list handed to
+        # from_lines is  <list>.extend(<main program lines>)
+        for p in SymBody(ctx, g).run(g.node.body):
+            muts = [ev for ev in p.events if ev[0] == 'call' and
+                    isinstance(ev[1], ast.Call) and
+                    isinstance(ev[1].func, ast.Attribute) and
+                    ev[1].func.attr in ('extend', 'append', 'insert')]
+            if muts and muts[-1][1].func.attr == 'extend' and \
+                    main in u(muts[-1][1].args[0]) and p.ret is not None \
+                    and u(muts[-1][1].func.value) in u(p.ret):
+                last_ok = True
     res.check(last_ok, 'R-C14-errors', g.qual,
               'main program appended after the loader', '',
               'main program is not the last piece', g.loc)
